@@ -375,7 +375,10 @@ def walkRec (walk : Nat → Store → M Store) (root : Nat) : List (Nat × Nat) 
       let s1 ← walk b s
       walkRec walk root t s1
 
-/-- `walk_doubles(root)` -/
+/-- `walk_doubles(root)`. Since fix e402536 the code keeps an explicit stack of `WalkFrame`s (one per
+call of the former recursive function, same keys collected on entry, same order of its four loops);
+the model keeps the recursive formulation, which performs the same steps in the same order. Stack
+depth itself is not modelled. -/
 def walkDoubles : Nat → Nat → Store → M Store
   | 0, _, _ => throw .fuel
   | fuel + 1, root, s =>
